@@ -494,7 +494,7 @@ func parseClause(c *Contract, t string, line int) error {
 			kw = after[:i]
 		}
 		tags, body := parseTags(strings.TrimSpace(after[len(kw):]))
-		if kw != "invariant" && kw != "decreases" {
+		if kw != "invariant" && kw != "decreases" && kw != "exit" {
 			return fmt.Errorf("bad loop clause kind %q", kw)
 		}
 		e, err := parseSpecExpr(body)
